@@ -483,7 +483,11 @@ def parse_unpack_pattern(lhs: ast.Tuple | ast.List) -> UnpackPattern:
         else None
     )
     right = lhs.elts[len(left) + 1 :]
-    assert isinstance(starred, ast.Name | None), "Python grammar"
+    # The Python grammar allows any assignment target behind the star, e.g. `*s.f, = ...`
+    if not isinstance(starred, ast.Name | None):
+        raise GuppyError(
+            UnsupportedError(starred, "Starred assignments to this expression")
+        )
     return UnpackPattern(left, starred, right)
 
 
